@@ -34,6 +34,8 @@ func attrsIn(o SOp, r SRes) []attrObs {
 	switch o.Kind {
 	case "getattr", "access", "read", "readlink", "fsstat", "fsinfo", "pathconf":
 		add(o.Dir, r.Res.Obj, o.Kind+" obj")
+	case "mnt":
+		add(o.Dir, r.Res.Obj, "getattr through the MNT handle")
 	case "lookup":
 		add(child, r.Res.Obj, "lookup obj")
 		add(o.Dir, r.Res.Dir, "lookup dir")
@@ -83,6 +85,13 @@ func judgeC04(c SrvCase) []Violation {
 		if isLink && !r.NoHandle && w.fs.Dump(true) != dumpBefore {
 			bad("setattr-through-symlink", "SETATTR on the handle of a symbolic link changed another object (the link's target)")
 		}
+		if o.Kind == "mnt" && r.MntFh != 0 {
+			// one object, one identity: the handle MNT gives for a spelling of a directory is the handle the
+			// client already holds for that directory (handles are per path, fileids per path)
+			if h, ok := w.handles[o.Dir]; ok && w.inoAt[o.Dir] == w.inoOf(o.Dir) && h != r.MntFh {
+				bad("mnt-second-identity", fmt.Sprintf("MNT %q returned handle %d for the directory %s, which the client reaches as handle %d by LOOKUP", o.Target, r.MntFh, o.Dir, h))
+			}
+		}
 		if r.NoHandle || r.Res.Bad {
 			continue
 		}
@@ -130,7 +139,7 @@ func (w *World) peek(p string) (os.FileInfo, error) {
 }
 
 func genC04(rng *rand.Rand, n int) SrvCase {
-	g := &nsGen{depth: 2, withData: rng.Intn(2) == 0, withSetattr: true}
+	g := &nsGen{depth: 2, withData: rng.Intn(2) == 0, withSetattr: true, withMnt: true}
 	c := genNsCase(rng, n, g)
 	c.Cfg.AttrTTL = []time.Duration{time.Nanosecond, 5 * time.Second, 20 * time.Millisecond}[rng.Intn(3)]
 	c.Cfg.DirCache = rng.Intn(2) == 0
@@ -148,7 +157,7 @@ func checkC04(r *Result, rng *rand.Rand, thorough bool) {
 	if thorough {
 		ncases, n = 3000, 80
 	}
-	r.Rule = "random namespace + SETATTR(mode incl. type bits, uid) + WRITE/SETATTR(size) histories over files, directories and (dangling) symlinks under random cache settings; every attribute block of every reply compared with the backend's lstat of the path it describes, fileid per (path, object) must be constant"
+	r.Rule = "random namespace + SETATTR(mode incl. type bits, uid) + WRITE/SETATTR(size) + MNT (non-canonical spellings of existing directories, then GETATTR through that handle) histories over files, directories and (dangling) symlinks under random cache settings; every attribute block of every reply compared with the backend's lstat of the path it describes, fileid per (path, object) must be constant"
 	for i := 0; i < ncases; i++ {
 		c := genC04(rng, 5+rng.Intn(n))
 		vs := judgeC04(c)
